@@ -20,6 +20,7 @@ long vf_nondet_long() { return static_cast<long>(vfd_next_value()); }
 int  vf_nondet_int() { return static_cast<int>(vfd_next_value()); }
 void vf_assume(bool c) { if(!c) vfd_stop('X', "assume"); }
 void vf_assert(bool c, const char* m) { std::string s = std::string("VF ") + m; vfd_event('A', s.c_str(), c ? 1 : 0); }
+bool vf_within(const void* p, const void* base, long nbytes) { auto a = reinterpret_cast<unsigned long>(p), b = reinterpret_cast<unsigned long>(base); return a >= b && a < b + static_cast<unsigned long>(nbytes); }
 void vf_reach(const char* m) { std::string s = std::string("REACH ") + m; vfd_event('R', s.c_str(), 1); }
 // library assertions (assert() -> __assert_fail) become an 'L' event with the same text the translator gives the cbmc property
 void __assert_fail(const char* expr, const char* file, unsigned line, const char*) noexcept {
